@@ -19,6 +19,11 @@
 //   R <thread#> <I|V|B|E> <t1> <t2> <type#> <name> <v0,v1,..|-> <frames..>   add_marker with a runtime-schema marker (one value per field: a word for
 //                                            string fields, an integer for number fields) + set_marker_stack when frames are given
 //   ("~" stands for the empty string in label frames, marker names / texts and marker string fields)
+//   Q <name> <colour>                        handle_for_category(Category(name, colour))     -> category handle #k (k-th Q)
+//   U <cat#> <name>                          handle_for_subcategory(category handle #cat, name)   -> subcategory handle #k (k-th U)
+//   every frame token may end in ^c<cat#> (a CategoryHandle), ^s<sub#> (a SubcategoryHandle), ^C<name>,<colour> (a Category value) or
+//   ^S<name>,<colour>,<subcategory> (a Subcategory value): what is passed where the API takes `impl IntoSubcategoryHandle`
+//   (no suffix = CategoryHandle::OTHER); colours are spelled as they are serialized
 //   C <proc#> <name>                         add_counter                       -> counter #k
 //   D <counter#> <time_ns> <value> <n>       add_counter_sample
 //   V <thread#> / W <thread#>                add_initial_visible_thread / add_initial_selected_thread
@@ -84,35 +89,82 @@ fn opt_u32(s: &str) -> Option<u32> {
     }
 }
 
-fn stack_of(profile: &mut Profile, thread: ThreadHandle, frames: &[&str], nsyms: &[NativeSymbolHandle]) -> Option<StackHandle> {
+fn color_of(s: &str) -> CategoryColor {
+    match s {
+        "transparent" => CategoryColor::Transparent,
+        "lightblue" => CategoryColor::LightBlue,
+        "red" => CategoryColor::Red,
+        "lightred" => CategoryColor::LightRed,
+        "orange" => CategoryColor::Orange,
+        "blue" => CategoryColor::Blue,
+        "green" => CategoryColor::Green,
+        "purple" => CategoryColor::Purple,
+        "yellow" => CategoryColor::Yellow,
+        "brown" => CategoryColor::Brown,
+        "magenta" => CategoryColor::Magenta,
+        "lightgreen" => CategoryColor::LightGreen,
+        "grey" => CategoryColor::Gray,
+        "darkgray" => CategoryColor::DarkGray,
+        x => panic!("bad colour {x}"),
+    }
+}
+
+pub struct Handles {
+    pub nsyms: Vec<NativeSymbolHandle>,
+    pub cats: Vec<CategoryHandle>,
+    pub subs: Vec<SubcategoryHandle>,
+}
+
+fn frame_of<SC: IntoSubcategoryHandle>(profile: &mut Profile, thread: ThreadHandle, f: &str, sc: SC, nsyms: &[NativeSymbolHandle]) -> FrameHandle {
+    if let Some(n) = f.strip_prefix('l') {
+        let s = profile.handle_for_string(if n == "~" { "" } else { n });
+        profile.handle_for_frame_with_label(thread, s, sc, FrameFlags::empty())
+    } else if let Some(a) = f.strip_prefix('a') {
+        let a = u64::from_str_radix(a, 16).unwrap();
+        profile.handle_for_frame_with_address(thread, FrameAddress::InstructionPointer(a), sc, FrameFlags::empty())
+    } else if let Some(a) = f.strip_prefix('r') {
+        let a = u64::from_str_radix(a, 16).unwrap();
+        profile.handle_for_frame_with_address(thread, FrameAddress::ReturnAddress(a), sc, FrameFlags::empty())
+    } else if let Some(rest) = f.strip_prefix('L') {
+        let p: Vec<&str> = rest.split('|').collect();
+        let s = profile.handle_for_string(p[0]);
+        let file_path = if p[1] == "-" { None } else { Some(profile.handle_for_string(p[1])) };
+        let loc = SourceLocation { file_path, line: opt_u32(p[2]), col: opt_u32(p[3]) };
+        profile.handle_for_frame_with_label_and_source_location(thread, s, loc, sc, FrameFlags::empty())
+    } else if f.starts_with('y') || f.starts_with('z') {
+        let p: Vec<&str> = f[1..].split('|').collect();
+        let a = u64::from_str_radix(p[0], 16).unwrap();
+        let addr = if f.starts_with('y') { FrameAddress::InstructionPointer(a) } else { FrameAddress::ReturnAddress(a) };
+        let native_symbol = nsyms[p[1].parse::<usize>().unwrap()];
+        let name = if p[2] == "-" { None } else { Some(profile.handle_for_string(p[2])) };
+        let file_path = if p[3] == "-" { None } else { Some(profile.handle_for_string(p[3])) };
+        let info = FrameSymbolInfo { name, native_symbol, source_location: SourceLocation { file_path, line: opt_u32(p[4]), col: opt_u32(p[5]) } };
+        profile.handle_for_frame_with_address_and_symbol(thread, addr, info, p[6].parse().unwrap(), sc, FrameFlags::empty())
+    } else {
+        panic!("bad frame {f}")
+    }
+}
+
+fn stack_of(profile: &mut Profile, thread: ThreadHandle, frames: &[&str], h: &Handles) -> Option<StackHandle> {
     let mut stack = None;
-    for f in frames {
-        let fh = if let Some(n) = f.strip_prefix('l') {
-            let s = profile.handle_for_string(if n == "~" { "" } else { n });
-            profile.handle_for_frame_with_label(thread, s, CategoryHandle::OTHER, FrameFlags::empty())
-        } else if let Some(a) = f.strip_prefix('a') {
-            let a = u64::from_str_radix(a, 16).unwrap();
-            profile.handle_for_frame_with_address(thread, FrameAddress::InstructionPointer(a), CategoryHandle::OTHER, FrameFlags::empty())
-        } else if let Some(a) = f.strip_prefix('r') {
-            let a = u64::from_str_radix(a, 16).unwrap();
-            profile.handle_for_frame_with_address(thread, FrameAddress::ReturnAddress(a), CategoryHandle::OTHER, FrameFlags::empty())
-        } else if let Some(rest) = f.strip_prefix('L') {
-            let p: Vec<&str> = rest.split('|').collect();
-            let s = profile.handle_for_string(p[0]);
-            let file_path = if p[1] == "-" { None } else { Some(profile.handle_for_string(p[1])) };
-            let loc = SourceLocation { file_path, line: opt_u32(p[2]), col: opt_u32(p[3]) };
-            profile.handle_for_frame_with_label_and_source_location(thread, s, loc, CategoryHandle::OTHER, FrameFlags::empty())
-        } else if f.starts_with('y') || f.starts_with('z') {
-            let p: Vec<&str> = f[1..].split('|').collect();
-            let a = u64::from_str_radix(p[0], 16).unwrap();
-            let addr = if f.starts_with('y') { FrameAddress::InstructionPointer(a) } else { FrameAddress::ReturnAddress(a) };
-            let native_symbol = nsyms[p[1].parse::<usize>().unwrap()];
-            let name = if p[2] == "-" { None } else { Some(profile.handle_for_string(p[2])) };
-            let file_path = if p[3] == "-" { None } else { Some(profile.handle_for_string(p[3])) };
-            let info = FrameSymbolInfo { name, native_symbol, source_location: SourceLocation { file_path, line: opt_u32(p[4]), col: opt_u32(p[5]) } };
-            profile.handle_for_frame_with_address_and_symbol(thread, addr, info, p[6].parse().unwrap(), CategoryHandle::OTHER, FrameFlags::empty())
-        } else {
-            panic!("bad frame {f}")
+    for tok in frames {
+        let (f, sc) = match tok.split_once('^') {
+            Some((f, sc)) => (f, Some(sc)),
+            None => (*tok, None),
+        };
+        let fh = match sc {
+            None => frame_of(profile, thread, f, CategoryHandle::OTHER, &h.nsyms),
+            Some(x) if x.starts_with('c') => frame_of(profile, thread, f, h.cats[x[1..].parse::<usize>().unwrap()], &h.nsyms),
+            Some(x) if x.starts_with('s') => frame_of(profile, thread, f, h.subs[x[1..].parse::<usize>().unwrap()], &h.nsyms),
+            Some(x) if x.starts_with('C') => {
+                let p: Vec<&str> = x[1..].split(',').collect();
+                frame_of(profile, thread, f, Category(p[0], color_of(p[1])), &h.nsyms)
+            }
+            Some(x) if x.starts_with('S') => {
+                let p: Vec<&str> = x[1..].split(',').collect();
+                frame_of(profile, thread, f, Subcategory(Category(p[0], color_of(p[1])), p[2]), &h.nsyms)
+            }
+            Some(x) => panic!("bad subcategory {x}"),
         };
         stack = Some(profile.handle_for_stack(thread, fh, stack));
     }
@@ -127,7 +179,7 @@ pub fn run(line: &str) -> String {
         let mut libs = Vec::new();
         let mut counters = Vec::new();
         let mut mtypes: Vec<(MarkerTypeHandle, String)> = Vec::new();
-        let mut nsyms: Vec<NativeSymbolHandle> = Vec::new();
+        let mut hd = Handles { nsyms: Vec::new(), cats: Vec::new(), subs: Vec::new() };
         for op in line.split(';') {
             let t: Vec<&str> = op.split_whitespace().collect();
             if t.is_empty() {
@@ -181,11 +233,11 @@ pub fn run(line: &str) -> String {
                     let th = threads[t[1].parse::<usize>().unwrap()];
                     let size: u32 = t[4].parse().unwrap();
                     let sym = Symbol { address: t[3].parse().unwrap(), size: if size == 0 { None } else { Some(size) }, name: t[5].to_string() };
-                    nsyms.push(profile.handle_for_native_symbol(th, libs[t[2].parse::<usize>().unwrap()], &sym));
+                    hd.nsyms.push(profile.handle_for_native_symbol(th, libs[t[2].parse::<usize>().unwrap()], &sym));
                 }
                 "S" => {
                     let th = threads[t[1].parse::<usize>().unwrap()];
-                    let stack = stack_of(&mut profile, th, &t[4..], &nsyms);
+                    let stack = stack_of(&mut profile, th, &t[4..], &hd);
                     profile.add_sample(th, ns(t[2]), stack, CpuDelta::ZERO, t[3].parse().unwrap());
                 }
                 "K" => {
@@ -194,7 +246,7 @@ pub fn run(line: &str) -> String {
                     let text = profile.handle_for_string(if t[4] == "~" { "" } else { t[4] });
                     let mh = profile.add_marker(th, MarkerTiming::Instant(ns(t[2])), TextMarker { name, text });
                     if t.len() > 5 {
-                        let stack = stack_of(&mut profile, th, &t[5..], &nsyms);
+                        let stack = stack_of(&mut profile, th, &t[5..], &hd);
                         profile.set_marker_stack(th, mh, stack);
                     }
                 }
@@ -256,9 +308,14 @@ pub fn run(line: &str) -> String {
                     }
                     let mh = profile.add_marker(th, timing, DynMarker { ty, name, strings, numbers });
                     if t.len() > 8 {
-                        let stack = stack_of(&mut profile, th, &t[8..], &nsyms);
+                        let stack = stack_of(&mut profile, th, &t[8..], &hd);
                         profile.set_marker_stack(th, mh, stack);
                     }
+                }
+                "Q" => hd.cats.push(profile.handle_for_category(Category(t[1], color_of(t[2])))),
+                "U" => {
+                    let c = hd.cats[t[1].parse::<usize>().unwrap()];
+                    hd.subs.push(profile.handle_for_subcategory(c, t[2]));
                 }
                 "C" => counters.push(profile.add_counter(procs[t[1].parse::<usize>().unwrap()], t[2], "Memory", "d")),
                 "D" => profile.add_counter_sample(counters[t[1].parse::<usize>().unwrap()], ns(t[2]), t[3].parse().unwrap(), t[4].parse().unwrap()),
